@@ -29,7 +29,9 @@ RULE = (
     "transaction T = one transfer (both modes, closure, all size classes, metadata-only) with 0..3 link faults and an "
     "optional cancel request at a tape-chosen call, executed fresh (A) and then after a history of 1..3 other "
     "transactions on the same handler objects (B: completed / cancelled by sender / cancelled by receiver / link silent "
-    "until the limits fault / abandon handler / user reset, own files, own modes, unbounded link faults) and / or beside a "
+    "until the limits fault / abandon handler / user reset, own files, own modes, unbounded link faults; a silent peer may be "
+    "a second remote entity with its own check-timer interval; scripted scale histories: large-file PDU format at the "
+    "receiver, one NAK PDU with 70 segment requests cancelled mid-service at the sender) and / or beside a "
     "sibling pair of handler instances running 1..2 transfers with link faults in the same scheduler (C); traces compared "
     "after normalising time to T's start and masking the sequence number; non-trivial = T itself met a fault or a cancel, "
     "or the history left a transaction unfinished; distinct = interleaving signature of the last variant"
